@@ -86,6 +86,31 @@ func main() {
 					if fd, ok := d.(*ast.FuncDecl); ok {
 						if obj, ok := p.TypesInfo.Defs[fd.Name].(*types.Func); ok {
 							lines = append(lines, funcShortName(obj)+"\t"+sigKey(obj.Type().(*types.Signature)))
+							if fd.Body != nil {
+								ast.Inspect(fd.Body, func(n ast.Node) bool {
+									if as, ok := n.(*ast.AssignStmt); ok && as.Tok == token.DEFINE && len(as.Lhs) == 1 && len(as.Rhs) == 1 {
+										if id, ok := as.Lhs[0].(*ast.Ident); ok {
+											if _, ok := as.Rhs[0].(*ast.FuncLit); ok {
+												lines = append(lines, "closure:"+funcShortName(obj)+"\t"+id.Name)
+											}
+										}
+									}
+									return true
+								})
+								seen := map[string]bool{}
+								ast.Inspect(fd.Body, func(n ast.Node) bool {
+									if id, ok := n.(*ast.Ident); ok {
+										if f, ok := p.TypesInfo.Uses[id].(*types.Func); ok && f.Pkg() != nil && w.Pkgs[f.Pkg().Path()] != nil {
+											k := "call:" + funcShortName(obj) + "\t" + funcShortName(f)
+											if !seen[k] {
+												seen[k] = true
+												lines = append(lines, k)
+											}
+										}
+									}
+									return true
+								})
+							}
 						}
 					}
 					if gd, ok := d.(*ast.GenDecl); ok && gd.Tok == token.TYPE {
